@@ -38,7 +38,7 @@ ASSUMPTIONS = [
     "in-memory datasets only (8-bit PIL quantisation of the npz path is C18's business)",
 ]
 TIERS = {
-    "quick": {"runs": 8000, "time_cap_s": 80, "chunk": 50, "det_inproc": 6, "det_fresh": 4, "minimise_s": 60},
+    "quick": {"runs": 14000, "time_cap_s": 80, "chunk": 50, "det_inproc": 6, "det_fresh": 4, "minimise_s": 60},
     "thorough": {"runs": 400000, "time_cap_s": 1200, "chunk": 100, "det_inproc": 30, "det_fresh": 15, "minimise_s": 180},
 }
 STEPS = ["sizematcher", "resizer", "pad", "crop", "affine", "intensity"]
